@@ -235,6 +235,32 @@ impl<
         }
     }
 
+    /// Removes the entry only if it is still expired. The cleanup reads the expiration without
+    /// keeping the shard lock, so the entry may have been replaced (and its TTL refreshed) since.
+    fn try_remove_expired(
+        &self,
+        key: &u64,
+        conflict: u64,
+    ) -> Result<Option<StoreItem<V>>, CacheError> {
+        let mut data = self.shards[(*key as usize) % NUM_OF_SHARDS].write();
+
+        match data.get(key) {
+            None => Ok(None),
+            Some(item) => {
+                if conflict != 0 && (conflict != item.conflict) {
+                    return Ok(None);
+                }
+
+                if item.expiration.is_zero() || !item.expiration.is_expired() {
+                    return Ok(None);
+                }
+
+                self.em.try_remove(key, item.expiration)?;
+                Ok(data.remove(key))
+            }
+        }
+    }
+
     pub fn expiration(&self, key: &u64) -> Option<Time> {
         self.shards[((*key) as usize) % NUM_OF_SHARDS]
             .read()
@@ -262,16 +288,18 @@ impl<
                                 if !t.is_zero() && t.is_expired() {
                                     #[cfg(transparencies_stretto_verif)]
                                     crate::verif::sched::point("cleanup:after_expiry_check");
-                                    let cost = policy.cost(k);
-                                    policy.remove(k);
-                                    self.try_remove(k, *v)
+                                    self.try_remove_expired(k, *v)
                                         .map(|maybe_sitem| {
-                                            maybe_sitem.map(|sitem| CrateItem {
-                                                val: Some(sitem.value.into_inner()),
-                                                index: sitem.key,
-                                                conflict: sitem.conflict,
-                                                cost,
-                                                exp: t,
+                                            maybe_sitem.map(|sitem| {
+                                                let cost = policy.cost(k);
+                                                policy.remove(k);
+                                                CrateItem {
+                                                    val: Some(sitem.value.into_inner()),
+                                                    index: sitem.key,
+                                                    conflict: sitem.conflict,
+                                                    cost,
+                                                    exp: sitem.expiration,
+                                                }
                                             })
                                         })
                                         .ok()
@@ -303,16 +331,16 @@ impl<
                     if !t.is_zero() && t.is_expired() {
                         #[cfg(transparencies_stretto_verif)]
                         crate::verif::sched::point("cleanup:after_expiry_check");
-                        let cost = policy.cost(k);
-                        policy.remove(k);
-                        let removed_item = self.try_remove(k, *v)?;
+                        let removed_item = self.try_remove_expired(k, *v)?;
                         if let Some(sitem) = removed_item {
+                            let cost = policy.cost(k);
+                            policy.remove(k);
                             removed_items.push(CrateItem {
                                 val: Some(sitem.value.into_inner()),
                                 index: sitem.key,
                                 conflict: sitem.conflict,
                                 cost,
-                                exp: t,
+                                exp: sitem.expiration,
                             })
                         }
                     }
